@@ -242,6 +242,7 @@ Inductive bkind :=
 Inductive block :=
 | Auto (s : sid) (q : rw)                          (* one statement of an autocommit session *)
 | AutoIC (s : sid) (i : ic)                        (* one implicit-commit statement of an autocommit session *)
+| OffSet (s : sid) (body : list rw)                (* SET autocommit = 0; body; SET autocommit = 1 - which commits *)
 | Txn (s : sid) (k : bkind) (body : list rw) (fin : option ic) (commit : bool).
     (* open; body; [an implicit-commit statement as the LAST statement before the end]; COMMIT or ROLLBACK *)
 
@@ -252,6 +253,7 @@ Definition flatten (b : block) : list (sid * stmt) :=
   match b with
   | Auto s q => [(s, stmt_of q)]
   | AutoIC s i => [(s, stmt_of_ic i)]
+  | OffSet s body => (s, SetAC false) :: map (fun q => (s, stmt_of q)) body ++ [(s, SetAC true)]
   | Txn s k body fin c =>
       (s, opener k) :: map (fun q => (s, stmt_of q)) body
         ++ match fin with Some i => [(s, stmt_of_ic i)] | None => [] end
@@ -303,6 +305,7 @@ Definition apply_block (d : tid -> data) (b : block) : (tid -> data) * list resu
   match b with
   | Auto _ q => let '(d', r) := apply_rw false d q in (d', [r])
   | AutoIC _ i => let '(d', r) := apply_ic d i in (d', [r])
+  | OffSet _ body => let '(d1, rs) := apply_rws false d body in (d1, ROk :: rs ++ [ROk])
   | Txn _ k body fin c =>
       let '(d1, rs) := apply_rws (is_ro k) d body in
       let tail := match k with KOff => [ROk; ROk] | _ => [ROk] end in
@@ -329,7 +332,7 @@ Arguments ROk {data}. Arguments RErr {data}. Arguments RRows {data}.
 Arguments RRead {wop mop}. Arguments RWrite {wop mop}. Arguments RWriteAll {wop mop}. Arguments RMulti {wop mop}.
 Arguments RBad {wop mop}. Arguments RSavepoint {wop mop}.
 Arguments IWrite {wop}. Arguments IDdl {wop}.
-Arguments Auto {wop mop}. Arguments AutoIC {wop mop}. Arguments Txn {wop mop}.
+Arguments Auto {wop mop}. Arguments AutoIC {wop mop}. Arguments OffSet {wop mop}. Arguments Txn {wop mop}.
 Arguments mkSess {data}. Arguments mkState {data}.
 Arguments staged {data}. Arguments tx {data}. Arguments ign {data}. Arguments ac {data}. Arguments ro {data}.
 Arguments db {data}. Arguments ss {data}.
